@@ -55,6 +55,15 @@ fn main() {
                 println!("INCONCLUSIVE property={} reason=watchdog fired after {} s (no verdict)", id, limit);
                 std::process::exit(2);
             });
+            // deadlock detector (a logical criterion, not a deadline): fires when for 30 s every other thread of this
+            // process is blocked in a futex wait (at most one sleeps: the watchdog above), none has used any CPU time,
+            // and the process has no child - nobody is left who could wake anybody. For C18 that is a verdict (threads
+            // working on shared states never come back); for the other properties it ends the run as inconclusive
+            // at once instead of after the watchdog.
+            {
+                let cfg2 = Cfg { id, tier, seed, workers, verif_dir: cfg.verif_dir.clone(), out_dir: cfg.out_dir.clone(), started: cfg.started, scale };
+                std::thread::spawn(move || deadlock_detector(cfg2));
+            }
             let code = match std::panic::catch_unwind(std::panic::AssertUnwindSafe(|| avm::dispatch(&cfg, &extra))) {
                 Ok(c) => c,
                 Err(_) => {
@@ -73,5 +82,89 @@ fn main() {
             std::process::exit(avm::replay::replay(&cfg, &args[2]));
         }
         _ => usage(),
+    }
+}
+
+/// (sum of utime + stime of the other threads, all of them blocked with nobody to wake them, futex waiters)
+fn blocked_snapshot() -> Option<(u64, bool, usize)> {
+    let me = std::fs::read_link("/proc/thread-self").ok()?.file_name()?.to_string_lossy().to_string();
+    let mut ticks = 0u64;
+    let mut futex = 0usize;
+    let mut sleepers = 0usize;
+    let mut all = true;
+    for e in std::fs::read_dir("/proc/self/task").ok()? {
+        let e = e.ok()?;
+        let tid = e.file_name().to_string_lossy().to_string();
+        if tid == me {
+            continue;
+        }
+        let base = e.path();
+        let stat = std::fs::read_to_string(base.join("stat")).ok()?;
+        let rest = &stat[stat.rfind(')')? + 1..];
+        let f: Vec<&str> = rest.split_whitespace().collect();
+        let state = *f.first()?;
+        ticks += f.get(11)?.parse::<u64>().ok()? + f.get(12)?.parse::<u64>().ok()?;
+        // a child process could still wake us (pipes, exit): then this is not a deadlock
+        match std::fs::read_to_string(base.join("children")) {
+            Ok(c) => {
+                if !c.trim().is_empty() {
+                    all = false;
+                }
+            }
+            Err(_) => return None, // cannot tell
+        }
+        let sc = std::fs::read_to_string(base.join("syscall")).ok()?;
+        let nr = sc.split_whitespace().next().unwrap_or("");
+        if state == "S" && nr == "202" {
+            futex += 1;
+        } else if state == "S" && nr == "230" {
+            sleepers += 1;
+        } else {
+            all = false;
+        }
+    }
+    Some((ticks, all && sleepers <= 1, futex))
+}
+
+fn deadlock_detector(cfg: Cfg) {
+    use serde_json::json;
+    let mut last: Option<u64> = None;
+    let mut quiet = 0u32;
+    loop {
+        std::thread::sleep(std::time::Duration::from_secs(2));
+        match blocked_snapshot() {
+            Some((ticks, true, futex)) if futex >= 3 && last == Some(ticks) => quiet += 1,
+            Some((ticks, _, _)) => {
+                quiet = 0;
+                last = Some(ticks);
+                continue;
+            }
+            None => return, // /proc does not tell: leave it to the watchdog
+        }
+        if quiet < 15 {
+            continue;
+        }
+        let (_, _, futex) = blocked_snapshot().unwrap_or((0, false, 0));
+        if cfg.id == "C18" {
+            let mut sink = avm::sink::Sink::new();
+            sink.count("deadlock_detector_fired");
+            let detail = format!("after {:.0} s of the check every thread of the process ({} of them) has been blocked in a futex wait for 30 s without using any CPU time, and no child process exists: threads working on states shared between them never came back (deadlock inside the engine)", cfg.started.elapsed().as_secs_f64(), futex);
+            sink.violate("C18", "threads_deadlocked", "C18|deadlock".to_string(), detail, json!({"kind": "threads", "observer": "deadlock_detector", "futex_waiters": futex}));
+            let rep = Report {
+                evaluations_counter: "deadlock_detector_fired",
+                rule: "deadlock detector of the C18 check: all threads blocked in futex waits, no CPU time used for 30 s, no child process (the workloads themselves did not finish, their counters are lost)".into(),
+                assumptions: vec!["the harness itself takes no lock that an engine call could hold: its threads only share read-only data, atomics and join handles".into()],
+                floors: vec![],
+                level: "exploration",
+                exhaustive: None,
+                extra: serde_json::Map::new(),
+                inconclusive: vec![],
+            };
+            let code = conclude(&cfg, sink, rep);
+            std::process::exit(code);
+        } else {
+            println!("INCONCLUSIVE property={} reason=every thread of the check is blocked in a futex wait and no child exists (a deadlock inside the engine? that is C18's concern) - no verdict", cfg.id);
+            std::process::exit(2);
+        }
     }
 }
